@@ -70,11 +70,11 @@ H('c20_hist_u8_ops3', 'value_allocator', {'C20': 'thorough'}, est=200, timeout=1
 
 # =============================================================================== C09
 _pb_enc = ['PacketBuilder::{new,feed,reset}', 'Cursor::{read,read_exact,position}', 'RawPacket::data_as_slice']
-H('c09_f1_n2', 'packet_builder', {'C09': 'quick', 'C05': 'thorough'}, est=80, timeout=900, mem='M',
+H('c09_f1_n2', 'packet_builder', {'C09': 'quick', 'C05': 'thorough'}, est=400, timeout=1800, mem='L',
   bounds='all 2-byte buffers fed to a fresh builder, calls repeated until exhausted', symbolic='2 bytes', encodes=_pb_enc)
-H('c09_f1_n3', 'packet_builder', {'C09': 'quick', 'C05': 'quick'}, est=160, timeout=1200, mem='M',
+H('c09_f1_n3', 'packet_builder', {'C09': 'thorough', 'C05': 'thorough'}, est=900, timeout=3600, mem='XL',
   bounds='all 3-byte buffers fed to a fresh builder, calls repeated until exhausted', symbolic='3 bytes', encodes=_pb_enc)
-H('c09_f1_n4', 'packet_builder', {'C09': 'thorough', 'C05': 'thorough'}, est=320, timeout=2400, mem='L',
+H('c09_f1_n4', 'packet_builder', {}, est=320, timeout=2400, mem='XL',
   bounds='all 4-byte buffers fed to a fresh builder', symbolic='4 bytes', encodes=_pb_enc)
 H('c09_f1_header_value', 'packet_builder', {'C09': 'quick', 'C14': 'quick'}, est=60, timeout=900, mem='M',
   bounds='all 1-4 byte Remaining Length encodings (incl. non-minimal) with value > 0, header only', symbolic='5 bytes, k in 1..=4', encodes=_pb_enc)
@@ -82,7 +82,7 @@ H('c09_f3_overlong_rl', 'packet_builder', {'C09': 'quick', 'C05': 'quick'}, est=
   bounds='fixed header + 4 continuation bytes (all other bits symbolic), split at any of 5 points, followed by a frame [h,1,d]', symbolic='8 bytes, cut position', encodes=_pb_enc)
 for nm, q in (('s1_three_frames', 'quick'), ('s2_nonminimal', 'quick'), ('s3_four_byte_len', 'thorough'), ('s4_error_then_frame', 'quick'),
               ('s5_partial_tail', 'thorough'), ('s6_three_byte_len', 'thorough')):
-    H('c09_f2_' + nm, 'packet_builder', {'C09': q}, est=120, timeout=1800, mem='M',
+    H('c09_f2_' + nm, 'packet_builder', {'C09': q}, est=200, timeout=2400, mem='L',
       bounds='one concrete stream shape (frame sizes concrete, all non-length bytes symbolic); every partition into 1, 2 or 3 chunks and byte-at-a-time vs whole-frame feeding',
       symbolic='every byte that does not determine a length', encodes=_pb_enc)
 
@@ -200,3 +200,20 @@ for v in ('v311', 'v5'):
 S('st_undetermined_first_packet', {'C17': 'quick', 'C05': 'thorough'}, stubs=_st, est=600, mem='L',
   bounds='first packet on an undetermined-version server: symbolic fixed-header byte (non-PUBLISH), body "MQTT"+level byte (all u8) or truncated', symbolic='fixed-header byte, protocol level, truncated?',
   encodes=['process_recv_packet (Version::Undetermined branch)', 'process_recv_v3_1_1_connect', 'process_recv_v5_0_connect'])
+
+# =============================================================================== C13 kernels
+H('c13_alias_send_hist3', 'topic_alias_send', {'C13': 'quick'}, est=300, timeout=2400, mem='L',
+  bounds='all histories of 3 operations (bind (topic in {a,b,c}, alias in 1..=max) | validate alias 0..=4) from TopicAliasSend::new(max), max in 1..=3; afterwards every alias, topic and the LRU victim compared with the receiver/LRU model',
+  symbolic='max, 3 x (op, alias, topic)', encodes=['TopicAliasSend::{new,insert_or_update,get,peek,find_by_topic,get_lru_alias}', 'ValueAllocator', 'container models'])
+H('c13_alias_send_clear', 'topic_alias_send', {'C13': 'quick'}, est=60, timeout=900, mem='M',
+  bounds='max and alias over all u16; one binding then clear()', symbolic='max, alias, probe', encodes=['TopicAliasSend::{insert_or_update,clear,peek,find_by_topic}'])
+H('c13_alias_recv_hist2', 'topic_alias_recv', {'C13': 'quick'}, est=60, timeout=900, mem='M',
+  bounds='max, two aliases and a probe over all u16; topics in {a,b}', symbolic='max, a1, a2, topics, probe', encodes=['TopicAliasRecv::{new,insert_or_update,get,clear}'])
+
+# =============================================================================== C08 kernels
+H('c08_pidman_step_u16', 'packet_id_manager', {'C08': 'quick'}, est=200, timeout=1800, mem='M',
+  bounds='PacketIdManager<u16> over an arbitrary valid allocator state (<= 3 free runs within 1..=65535), one symbolic call (acquire | register(x) | release(x) for used x), universal probe q',
+  symbolic='3 runs, n, op, x, q', encodes=['PacketIdManager::{acquire_unique_id,register_id,is_used_id,release_id}', 'ValueAllocator'])
+S('st_id_calls_total', {'C08': 'quick', 'C05': 'thorough'}, est=200,
+  bounds='release_packet_id / register_packet_id / acquire_packet_id on a connection with two ids in use, argument over all u16 (incl. 0 and max), release called twice',
+  symbolic='a, b, q, op', encodes=['release_packet_id', 'register_packet_id', 'acquire_packet_id'])
